@@ -91,7 +91,7 @@ func main() {
 	var table []access
 	var commands []string
 	typeBytes := map[string]string{}
-	facts := map[string]bool{}
+	facts := map[string]bool{"handleMessageOnlyFromDispatch": true}
 	var stopOrder []string
 
 	for _, f := range files {
@@ -122,6 +122,9 @@ func main() {
 				// registered command names
 				ast.Inspect(d.Body, func(n ast.Node) bool {
 					if call, ok := n.(*ast.CallExpr); ok {
+						if _, sel := selName(call.Fun); sel == "handleMessage" && fname != "Server.dispatch" {
+							facts["handleMessageOnlyFromDispatch"] = false
+						}
 						if _, sel := selName(call.Fun); sel == "RegisterExexutor" && len(call.Args) > 0 {
 							if lit, ok := call.Args[0].(*ast.BasicLit); ok {
 								commands = append(commands, strings.Trim(lit.Value, `"`))
@@ -231,6 +234,10 @@ func main() {
 				// lifecycle facts
 				switch fname {
 				case "Server.serveConn", "Server.receive":
+					if fname == "Server.serveConn" {
+						src := nodeString(fset, names, d.Body)
+						facts["loopDispatchesUnderMutex"] = strings.Contains(src, "server.dispatch(") && !strings.Contains(src, "handleMessage(")
+					}
 					for i, st := range d.Body.List {
 						if ds, ok := st.(*ast.DeferStmt); ok {
 							src := nodeString(fset, names, ds)
@@ -260,6 +267,10 @@ func main() {
 					if d.Name.Name == "tlsServe" {
 						facts["handshakeOutsideAcceptLoop"] = !strings.Contains(src, "Handshake()")
 					}
+				case "Server.dispatch":
+					src := nodeString(fset, names, d.Body)
+					lock, unlock, call := strings.Index(src, "dispatchMutex.Lock()"), strings.Index(src, "defer server.dispatchMutex.Unlock()"), strings.Index(src, "handleMessage(")
+					facts["dispatchHoldsMutex"] = lock >= 0 && unlock > lock && call > unlock
 				case "Server.startConn":
 					src := nodeString(fset, names, d.Body)
 					add, goat := strings.Index(src, "AddConn("), strings.Index(src, "go func()")
